@@ -13,6 +13,7 @@ sequential protocol view and stays not_decided here.
 import astload
 from core import Fn, Target, VC
 import frame
+import functional
 
 
 def T(*a, **k):
@@ -501,10 +502,10 @@ def lint_vcs():
 
 def build(tier):
     targets = (solver_targets() + iterator_targets() + objective_targets() + loss_targets(tier) + tune_targets() + wlearner_targets()
-               + dataset_const_targets())
+               + dataset_const_targets() + functional.targets())
     return {
         'targets': targets, 'vcs': [], 'bounded': lint_vcs(),
-        'decided': [
+        'decided': functional.DECIDED + [
             'METHOD: two threads race on an object only if at least one of them writes it.  Every target is the REAL function (clang AST -> C) under a DFCC contract whose assigns clause is the complete list of what it may write; CBMC checks every store of the extracted text and every footprint write (one per possibly-mutating mention of an erased object, read off clang\'s const analysis) against it, on every path, for all inputs.  C struct layouts are generated from the class definitions on every run (bases flattened, `mutable` recorded), so a member added to a class is part of the frame without touching the spec; pointer / unique_ptr / reference members are C pointers to separate objects (C++ constness does not reach through them, the frame proof does)',
             'SOLVER shared by all fold / trial tasks: solver_t::minimize() const, solver_t::done() const, solver_t::make_lsearch() const and the bodies do_minimize() const of gd, cgd (all 10 beta formulas), lbfgs (the default solver of ml::params_t), quasi (all 5 update formulas), sgm, cocob, osga, ellipsoid, pgm / dgm / fgm, asga2 / asga4, pdsgm (sda / wda) -- 30 of the 37 registered solver ids -- write NOTHING of the solver object and NOTHING of the two line-search prototypes it owns (m_lsearch0 / m_lsearchk: unique_ptr members, writable through a const solver as far as C++ is concerned); make_lsearch() returns two fresh clones, different from the prototypes, and sets the parameters on the clones; the history-carrying state (lsearch_t::m_last_step_size [mutable], the lsearch0 / lsearchk objects\' own members) that lsearch_t::get() const writes belongs to that per-call pair; what else is written is the caller\'s function object (mutable evaluation counters), states and vectors',
             'LOSS shared by every task: error / value / vgrad const of every registered loss (16 flatten_loss_t instantiations [quick tier: 3 of them, one per kernel family; thorough tier: all] + pinball) and the three resizing wrappers write nothing of the loss object (only the caller\'s output)',
@@ -524,7 +525,7 @@ def build(tier):
             'user code: function objects, callbacks and custom tuners / generators supplied by a caller',
             'determinism clause (d) of the lemma; ThreadSanitizer-style dynamic evidence',
         ],
-        'assumptions': [
+        'assumptions': functional.ASSUMPTIONS + [
             'erased callees: a function that only receives objects of owner / view types (tensors, Eigen, std::vector / string / map / any, feature_t, scalar_stats_t, cluster_t, parameter_t ...: value semantics, deep constness) writes only what it is handed by non-const reference or pointer (charged at the call) or state with static storage duration (the lint: only init-once factory singletons exist); this covers Eigen, the STL, tensor_t members, linear::predict, store_stats, resize_and_map, the loss kernels tloss::value / vgrad / error, make_range, make_file_logger',
             'a write is charged where the mutable access path is created (non-const member call, binding to a non-const reference, address-of, assignment, ++, a cast that drops const); a view of const data (tensor_cmap_t, Eigen::Map<const T>) cannot be written through whatever overload clang picked; the view object itself only changes by an assignment written in the function',
             'virtual const callees used through an assumed frame: lsearch0_t::clone / lsearchk_t::clone return a new object (every implementation is std::make_unique<T>(*this)); generator_t::flatten / select const read the generator; wlearner_t::split const (do_split of the learner) reads the learner; dataset_t::check throws or returns; dataset_t::targets / flatten / select as used by the iterators write only the buffer handed in (flatten and select(feature) are proved here, targets and select(target) are assumed)',
@@ -536,3 +537,21 @@ def build(tier):
         ],
         'trusted': ['specs/C18/frame.py: the possibly-mutating-mention analysis over clang\'s AST (const-qualification of expression types, implicit NoOp casts to const, lvalue-to-rvalue conversions) and the struct layouts generated from FieldDecls'],
     }
+
+
+def replay(rp):
+    """functional select_iterator_t targets (fsel_*): the REAL select_iterator_t::loop on the real library of the working tree
+    with dataset pools of 1..4 threads; the operator must see every feature of its kind exactly once, with the values of that
+    feature, for every pool size (replay/C18_replay.cpp).  Frame targets: a write that breaks a frame has no sequential
+    failing input (it needs a second thread and a race detector); the replay file carries the verifier output only."""
+    import re
+    import replaylib
+    out = {'reproduced': False, 'runs': []}
+    if not re.match(r'fsel_|features_per_thread', rp['target']):
+        out['note'] = 'no native driver for this target: the replay file carries the verifier output only'
+        return out
+    exe = replaylib.build_with_library('replay/C18_replay.cpp', 'C18_replay')
+    rc, so, se = replaylib.run_driver(exe, [], timeout=300)
+    out['runs'].append({'exit': rc, 'output': so.strip()[-3000:]})
+    out['reproduced'] = (rc == 1)
+    return out
